@@ -256,14 +256,8 @@ class Model(object):
 def build(work, lib, gen_files, front, asan=True):
     """Build the interpreter driver; returns (exe path or None, error text)."""
     src = c_interp(lib) if front == "c" else f_interp(lib)
-    # reuse the generic build by temporarily substituting the driver generators
-    save_c, save_f = drivers.c_driver, drivers.f_driver
-    try:
-        drivers.c_driver = lambda _lib: src
-        drivers.f_driver = lambda _lib: src
-        res = drivers.build_and_run(work, lib, gen_files, front, asan=asan, run=False)
-    finally:
-        drivers.c_driver, drivers.f_driver = save_c, save_f
+    res = drivers.build_custom(work, xlib.subject_sources(lib), lib["language"] == "c++", gen_files, front, src,
+                               asan=asan, run=False)
     if res["stage"] != "built":
         return None, res
     return os.path.join(work, "drv"), res
